@@ -17,7 +17,7 @@ ASSUMPTIONS = ['resting sell orders are reduce-only (as the strategy layer submi
                'everything resting on a symbol is cancelled when its position closes (stub strategy)',
                'balances compared with relative tolerance 1e-9; decisions closer than 1e-9 relative to the threshold accept either '
                'outcome; submit->cancel must restore the quote balance (rel 1e-12: balances are re-rounded to floats after each decimal operation)']
-MIN_OBS = {'session_state_comparisons': 2000, 'session_fills': 300, 'exact_boundary_cases': 100, 'histories': 300, 'ops': 5000, 'fills': 2000, 'sell_submits_after_cancelled_sell': 300,
+MIN_OBS = {'exact_split_sells': 100, 'session_state_comparisons': 2000, 'session_fills': 300, 'exact_boundary_cases': 100, 'histories': 300, 'ops': 5000, 'fills': 2000, 'sell_submits_after_cancelled_sell': 300,
            'reject_buy_agreed': 100, 'reject_sell_agreed': 100, 'near_threshold_accepts': 100, 'exact_holding_sells': 200,
            'state_comparisons': 5000}
 SYMS = ['BTC-USDT', 'ETH-USDT']
@@ -194,6 +194,24 @@ def _history(job):
                     k = do_submit(sym, 'sell', typ, q, price, typ != 'MARKET' or rng.random() < 0.6)
                     if typ == 'MARKET':
                         do_fill(k)
+            elif r < 0.62 and w.pos[sym].qty > 0:
+                # several resting sells of one kind that add up exactly (in decimal) to what is still free
+                typ = rng.choice(['LIMIT', 'STOP'])
+                held = Decimal(repr(float(w.pos[sym].qty))) - mdl.committed(sym, typ)
+                nparts = rng.choice([2, 3, 4])
+                # (only when the holding has few enough digits for decimal-on-repr arithmetic to be exact)
+                if held > 0 and len(held.as_tuple().digits) <= 12:
+                    unit = Decimal(1).scaleb(-rng.choice([1, 2, 3]))
+                    parts, left = [], held
+                    for _ in range(nparts - 1):
+                        p_ = (held * Decimal(repr(round(rng.uniform(0.1, 0.4), 3)))).quantize(unit)
+                        if 0 < p_ < left:
+                            parts.append(p_)
+                            left -= p_
+                    parts.append(left)
+                    c('exact_split_sells')
+                    for p_ in parts:
+                        do_submit(sym, 'sell', typ, float(p_), round(cur * (1 + rng.uniform(0.01, 0.03)), 2), True)
             elif r < 0.68 and w.pos[sym].qty > 0:
                 # cancel-then-bigger-sell pattern
                 typ = rng.choice(['LIMIT', 'STOP'])
